@@ -440,6 +440,18 @@ func fixTransferEncoding(requestMethod string, header Header) ([]string, error) 
 // ReadResponse and ReadRequest.
 func fixLength(isResponse bool, status int, requestMethod string, header Header, te []string) (int64, error) {
 
+	// RFC 7230 3.3.2 / 3.3.3: several Content-Length fields must all carry
+	// the same value (then they are collapsed), otherwise the framing is invalid.
+	if cls := header["Content-Length"]; len(cls) > 1 {
+		first := strings.Trim(cls[0], " \t")
+		for _, v := range cls[1:] {
+			if strings.Trim(v, " \t") != first {
+				return -1, &badStringError{"conflicting Content-Length values", strings.Join(cls, ",")}
+			}
+		}
+		header["Content-Length"] = cls[:1]
+	}
+
 	// Logic based on response type or status
 	if noBodyExpected(requestMethod) {
 		return 0, nil
@@ -458,13 +470,16 @@ func fixLength(isResponse bool, status int, requestMethod string, header Header,
 	}
 
 	// Logic based on Content-Length
-	cl := strings.TrimSpace(header.GetDirect("Content-Length"))
+	cl := strings.Trim(header.GetDirect("Content-Length"), " \t")
 	if cl != "" {
 		n, err := parseContentLength(cl)
 		if err != nil {
 			return -1, err
 		}
 		return n, nil
+	} else if _, present := header["Content-Length"]; present && !isResponse {
+		// a request with an empty Content-Length has invalid framing (RFC 7230 3.3.3)
+		return -1, &badStringError{"bad Content-Length", cl}
 	} else {
 		header.Del("Content-Length")
 	}
@@ -689,12 +704,12 @@ func (bl bodyLocked) Read(p []byte) (n int, err error) {
 // parseContentLength trims whitespace from s and returns -1 if no value
 // is set, or the value if it's >= 0.
 func parseContentLength(cl string) (int64, error) {
-	cl = strings.TrimSpace(cl)
+	cl = strings.Trim(cl, " \t") // OWS only (RFC 7230 3.2.3), not Unicode space
 	if cl == "" {
 		return -1, nil
 	}
 	n, err := strconv.ParseInt(cl, 10, 64)
-	if err != nil || n < 0 {
+	if err != nil || n < 0 || cl[0] == '+' || cl[0] == '-' {
 		return 0, &badStringError{"bad Content-Length", cl}
 	}
 	return n, nil
